@@ -315,6 +315,32 @@ def SFld.reads : SFld → List String
   | .strs => ["read_u32", "loop", "read_string"]
   | .pairs => ["read_u32", "loop", "read_string", "read_string"]
 
+def SFld.writes : SFld → List String
+  | .str | .extStr _ => ["write_string"]
+  | .optStr | .optExtStr _ => ["write_bool", "write_string"]
+  | .date => ["encode"]
+  | .optDate => ["write_bool", "encode"]
+  | .bool => ["write_bool"]
+  | .u8In _ => ["write_u8"]
+  | .u32Mask _ => ["write_u32"]
+  | .u64 => ["write_u64"]
+  | .lenBytes | .extLenBytes _ => ["write_u32", "write_bytes"]
+  | .fixed _ => ["write_bytes"]
+  | .strs => ["write_u32", "loop", "write_string"]
+  | .pairs => ["write_u32", "loop", "write_string", "write_string"]
+
+def Fld.writes : Fld → List String
+  | .s f => f.writes
+  | .choice _ => ["encode"]
+
+def fldsWrites (flds : List Fld) : List String := (flds.map Fld.writes).flatten
+
+def modelSecretEncArms : List (String × List String) :=
+  Generated.secretKindTags.map fun (v, t) =>
+    match schema t with
+    | some flds => (v, fldsWrites flds ++ ["write_user_data"])
+    | none => (v, ["?"])
+
 def Fld.reads : Fld → List String
   | .s f => f.reads
   | .choice _ => ["decode"]          -- a nested Decodable (FileContent, SecretSigner)
